@@ -33,7 +33,7 @@ MUTANTS = [
     ('c07-unpause-all', 'C07', M + 'simulation.py', 'events_to_unpause = [x for x in self._paused_events if x.asset_id == asset_id]',
      'events_to_unpause = [x for x in self._paused_events]'),
     ('c02-accept-while-busy', 'C02', FF + 'part_processor.py', "        if not super()._can_accept_part(part):\n            return False\n        # Reserving",
-     "        if not PartFlowController._can_accept_part(self, part):\n            return False\n        # Reserving"),
+     "        if not super(PartHandler, self)._can_accept_part(part):\n            return False\n        # Reserving"),
     ('c02-source-budget', 'C02', FF + 'source.py', 'if self.remaining_parts < 1 or self._output == None:', 'if self.remaining_parts < 0 or self._output == None:'),
     ('c02-clear-before-answer', 'C02', FF + 'part_handler.py', "            if dwn.give_part(self._output):\n                self._output = None\n                self.notify_upstream_of_available_space()\n                return",
      "            out, self._output = self._output, None\n            if dwn.give_part(out):\n                self.notify_upstream_of_available_space()\n                return\n            self._output = None"),
